@@ -1,0 +1,75 @@
+//! Verification probes (only compiled with `--cfg num_bigint_verif`).
+//!
+//! Add-only instrumentation used by the model-based verification harness:
+//! branch hit counters, a multiply-accumulate work counter and raw accessors
+//! to the digit vector.  Nothing here changes the behaviour of the crate.
+
+use core::sync::atomic::{AtomicU64, Ordering};
+
+macro_rules! probes {
+    ($($name:ident),* $(,)?) => {
+        #[allow(non_camel_case_types, clippy::upper_case_acronyms)]
+        #[derive(Clone, Copy, Debug, PartialEq, Eq)]
+        #[repr(usize)]
+        pub enum Probe { $($name),* , _COUNT }
+        /// Probe names, indexed by `Probe as usize`.
+        pub const NAMES: &[&str] = &[$(stringify!($name)),*];
+    };
+}
+
+probes!(
+    ADD_ASM_BLOCKS, ADD_CARRY_AFTER_ASM, ADD_TAIL, ADD_PROPAGATE, ADD_PROPAGATE_FULL, ADD_PUSH,
+    ADDASSIGN_SHORTER_SELF,
+    SUB_ASM_BLOCKS, SUB_BORROW_AFTER_ASM, SUB_TAIL, SUB_PROPAGATE, SUB_REV, SUB_REFVAL_LO_BORROW,
+    MAC3_STRIP, MAC3_LONG, MAC3_HALF, MAC3_KARA, MAC3_KARA_PLUS, MAC3_KARA_MINUS, MAC3_KARA_NOSIGN,
+    MAC3_TOOM3, MAC_DIGIT_WORK, SCALAR_MUL_POW2,
+    DIV_SINGLE, DIV_LESS, DIV_EQUAL, DIV_SHIFT, DIVCORE_ITER, DIVCORE_A0_EQ_B0, DIVCORE_REFINE,
+    DIVCORE_ADDBACK, DIV_WIDE_PRE_VIOLATED,
+    MONTY_CALL, MONTY_SUB, MONTY_FINAL_SUB, MONTY_FINAL_REM, MODPOW_ODD, MODPOW_EVEN,
+    PLAIN_ZERO_DIGITS, PLAIN_EARLY_EXIT,
+    RADIX_OUT_BIGBASE, RADIX_OUT_SMALL, RADIX_OUT_BITWISE, RADIX_OUT_INEXACT, RADIX_IN_BITWISE,
+    RADIX_IN_INEXACT, RADIX_IN_CHUNKS,
+    F64_STICKY, F64_INF,
+    BITS_NEG_PUSH, SETNEG_CASE_LT, SETNEG_CASE_EQ, SETNEG_CASE_GT_SET, SETNEG_CASE_GT_CLEAR,
+    SHR_ROUND_DOWN,
+    ROOT_GUESS_F64, ROOT_GUESS_SCALED, ROOT_GUESS_POW2, ROOT_UP, ROOT_DOWN, ROOT_U64,
+    GCD_LOOP,
+);
+
+const N: usize = Probe::_COUNT as usize;
+#[allow(clippy::declare_interior_mutable_const)]
+const ZERO: AtomicU64 = AtomicU64::new(0);
+static HITS: [AtomicU64; N] = [ZERO; N];
+
+/// Count one hit of probe `p`.
+#[inline]
+pub fn hit(p: Probe) {
+    HITS[p as usize].fetch_add(1, Ordering::Relaxed);
+}
+
+/// Add `n` to probe `p` (work counters).
+#[inline]
+pub fn add(p: Probe, n: u64) {
+    HITS[p as usize].fetch_add(n, Ordering::Relaxed);
+}
+
+/// Current value of probe `p`.
+pub fn get(p: Probe) -> u64 {
+    HITS[p as usize].load(Ordering::Relaxed)
+}
+
+/// Values of all probes, in `NAMES` order.
+pub fn snapshot() -> [u64; N] {
+    let mut out = [0; N];
+    for (o, h) in out.iter_mut().zip(HITS.iter()) {
+        *o = h.load(Ordering::Relaxed);
+    }
+    out
+}
+
+/// Reset all probes to zero.
+pub fn reset() {
+    for h in HITS.iter() {
+        h.store(0, Ordering::Relaxed);
+    }
+}
